@@ -452,3 +452,40 @@ pub fn c11_routing_step_p0() {
 pub fn c11_routing_step_p2() {
     routing_step(2)
 }
+
+// ===================================================================================================== C12/C15 (timed-out peers)
+/// What housekeep does with the peers its expiry loop selected (the `for addr in del` loop extracted from GenericCloud::housekeep):
+/// each is removed from the peer table, its claims are removed from the routing table (nothing keeps pointing at it) and its
+/// address is dialled again; the other peer stays.
+#[cfg_attr(kani, kani::proof, kani::unwind(6))]
+pub fn c12_timed_out_peer_loses_routes_and_is_redialled() {
+    let pa: [u8; 2] = kani::any();
+    kani::assume(pa[0] != pa[1]);
+    let both: bool = kani::any();
+    let mut r = XReaper {
+        peers: crate::vstd::collections::HashMap::new(),
+        table: XLookup { answer: None, asked: 0, removed: smallvec::ivec::IVec::new() },
+        connects: smallvec::ivec::IVec::new(),
+    };
+    r.peers.insert(xaddr(pa[0]), XPeerId { node_id: xid(0) });
+    r.peers.insert(xaddr(pa[1]), XPeerId { node_id: xid(1) });
+    let mut del: smallvec::ivec::IVec<SocketAddr, 2> = smallvec::ivec::IVec::new();
+    del.push(xaddr(pa[0]));
+    if both {
+        del.push(xaddr(pa[1]));
+    }
+    let res = crate::vh_common::okf(r.forget_slice(del));
+    assert!(res.is_some());
+    let n = if both { 2 } else { 1 };
+    assert!(r.peers.len() == 2 - n);
+    assert!(!r.peers.contains_key(&xaddr(pa[0])) && r.peers.contains_key(&xaddr(pa[1])) == !both);
+    assert!(r.table.removed.len() == n && r.table.removed.as_slice()[0] == xaddr(pa[0]));
+    assert!(r.connects.len() == n && r.connects.as_slice()[0] == xaddr(pa[0]));
+    if both {
+        assert!(r.table.removed.as_slice()[1] == xaddr(pa[1]) && r.connects.as_slice()[1] == xaddr(pa[1]));
+    }
+    assert!(r.table.asked == 0);
+    vcover!(both, "two_peers_expire_at_once");
+    std::mem::forget(r);
+    witness!();
+}
